@@ -27,7 +27,7 @@ RULE = (
     "x.license, a.spdx.json, a.spdxx, a.spdx_json, REUSE.toml, .hgtags, ...) and ordinary names (spaces, non-ASCII), kinds text / empty / binary / "
     "symlink (to file, directory, dangling, outside), directories LICENSES, .reuse, .hg, .sl, subprojects at any depth; half the trees are Git "
     "repositories with generated .gitignore rules (names, anchored paths, directory rules, globs, negations, nested files), tracked and force-added "
-    "files and manual submodules; all four flag combinations; plus two directed trees (submodule directly below subprojects/, nested look-alike directories) under every flag combination.  Expected = reference model + `git check-ignore`.  Observed four ways: lint --json "
+    "files, a rule in the user's own excludes file (core.excludesFile) and manual submodules; all four flag combinations; plus two directed trees (submodule directly below subprojects/, nested look-alike directories) under every flag combination.  Expected = reference model + `git check-ignore`.  Observed four ways: lint --json "
     "(files + read errors), spdx FileName, lint-file on every path, files modified by annotate -r on a copy.  Non-trivial = tree has >= 1 covered and "
     ">= 1 excluded path; distinct by tree content + flags."
 )
@@ -139,6 +139,16 @@ def check_tree(ctx, case):
             elsewhere = ctx.fresh_dir("elsewhere")
             run_cwd = elsewhere
             flags = tuple(flags) + ("--root", str(root))
+        if spec["git"]:
+            # a rule that lives in the user's own excludes file (core.excludesFile), not in the repository
+            gdir = ctx.scratch / "gitglobal"
+            gdir.mkdir(exist_ok=True)
+            (gdir / "ignore").write_text("*.gex\n")
+            (gdir / "config").write_text(f"[core]\n\texcludesFile = {gdir / 'ignore'}\n")
+            os.environ["GIT_CONFIG_GLOBAL"] = str(gdir / "config")
+            (root / "user-level.gex").write_text("ignored by the user's excludes file\n")
+        else:
+            os.environ["GIT_CONFIG_GLOBAL"] = "/dev/null"
         verdicts = expected(root, spec, flags)
         cov = {p for p, (v, _w) in verdicts.items() if v == RC.COVERED}
         exc = {p for p, (v, _w) in verdicts.items() if v == RC.EXCLUDED}
